@@ -504,6 +504,20 @@ impl SimFs {
         if (rf.trailing_slash || rt.trailing_slash) && src_kind != Kind::Dir {
             return Err(err(ENOTDIR));
         }
+        if src_kind == Kind::Dir && rt.ino != Some(src) {
+            // a directory may not be moved into itself (checked before the target is looked at:
+            // calibrated, `rename d d/e/` with d/e an existing directory is EINVAL, not ENOTEMPTY)
+            let mut p = rt.parent;
+            loop {
+                if p == src {
+                    return Err(err(EINVAL));
+                }
+                if p == self.root {
+                    break;
+                }
+                p = self.inodes[&p].parent;
+            }
+        }
         let mut replaced = None;
         if let Some(dst) = rt.ino {
             if dst == src {
